@@ -34,6 +34,7 @@ OBLIGATIONS = [
     "SkVerif.C10.interval_rows_follow_forecasts",
     "SkVerif.C10.one_table_per_level",
     "SkVerif.C10.update_predict_refuses_intervals_untouched",
+    "SkVerif.C10.interval_tables_labelled_like_forecast",
 ]
 TRUSTED = ["hand-written model SkVerif/Model/Forecaster.lean + Series.lean + PredInt.lean of the forecaster base classes (shared with C03)",
            "interval half-widths of real forecasters (z-score, sigma) are floats: compared between twin runs of the real code only; the exact interval probe (harness/probes.py) stands in for them in the correspondence",
@@ -168,6 +169,13 @@ def oracle(c, out):
             bad = _check_update_equiv(c, i, op[2])
             if bad:
                 fails.append((site + (":refit-update-differs-from-fresh-fit" if op[2] else ":no-refit-update-changed-forecast"), bad))
+        # (a') remembering the union: re-stating known observations unchanged next to the new ones changes nothing
+        #      (without refit for every forecaster; with refit for those whose update is a refit of the whole forecaster)
+        if k == "upd" and r[0] == "ok" and op[1] and in_order and prev[0] and (c["mode"] == "o" or opq) \
+                and c["core"].split(":")[-1] not in PER_CALL_STATISTICS and (not op[2] or not opq or _refit_comparable(c, i)):
+            bad = _check_restated_idempotent(c, i)
+            if bad:
+                fails.append((site + ":restated-observations-change-forecasts", bad))
         # (c'') statsmodels-backed forecasters keep the fitted model when parameter updating is disabled: forecasts "from the
         #       new cutoff" are then that model carried on to the new time points -- what was forecast for step k+h before k
         #       new observations arrived is what is forecast for step h afterwards
@@ -501,6 +509,44 @@ PROBE_FH = ["r", [1, 2, 4]]
 NOT_A_REFIT = {"stack", "pipeline_detrend", "pipeline_impute", "tuned", "theta"}
 
 
+# per-call statistics inside a pipeline step (Imputer(method="mean") fills a batch's gaps with THAT batch's mean): a batch that
+# re-states known observations is then, by the step's own code, a different input
+PER_CALL_STATISTICS = {"pipeline_impute"}
+
+
+def _check_restated_idempotent(c, i):
+    """remembering the UNION: an update batch that re-states observations already known (same labels, same values) next to
+    its new ones leaves the forecaster where the new ones alone leave it -- same forecasts afterwards"""
+    ops = c["ops"][:i + 1]
+    op = ops[-1]
+    fit_idx = max(j for j, o in enumerate(ops) if o[0] == "fit")
+    known = {}
+    for o in ops[fit_idx:i]:
+        if o[0] in ("fit", "upd", "ups") and o[1]:
+            for l, v in o[1]:
+                if v is not None or l not in known:
+                    known[l] = v
+        elif o[0] == "up":
+            return None
+    if not known:
+        return None
+    top = max(known)
+    old = [(l, v) for l, v in op[1] if l <= top]
+    new = [[l, v] for l, v in op[1] if l > top]
+    if not old or not new or any(l not in known or known[l] != v or v is None for l, v in old):
+        return None
+    probe = PROBE_FH if c["mode"] == "o" else None
+    a, _ = _real_values(_twin(c, ops + [["pred", probe]]))
+    b, _ = _real_values(_twin(c, ops[:-1] + [[op[0], new] + list(op[2:]), ["pred", probe]]))
+    if isinstance(a[-2], str) and a[-2] != "ok" or isinstance(b[-2], str) and b[-2] != "ok":
+        return None
+    if not _same(a[-1], b[-1]):
+        return "update with %s (labels up to %d re-stated unchanged) then forecasts %s; update with the new observations alone then forecasts %s" % (
+            M.s_series(op[1]), top, _fmt(a[-1]), _fmt(b[-1]))
+    return None
+
+
+
 def _refit_comparable(c, i):
     """opaque forecasters: update(update_params=True) is compared with a fresh fit on the union when the history so far
     is fit + plain updates (update_predict feeds only part of its data), no horizon is absolute and the labels handed
@@ -526,6 +572,9 @@ def _check_update_equiv(c, i, refit):
     fh_for_fit = fit_op[2]
     probe = PROBE_FH if c["mode"] == "o" else None          # a horizon-dependent forecaster answers with its own horizon
     a_outs, fa = _real_values(_twin(c, ops + [["pred", probe]]))
+    # is the horizon given at fit still the stored one (no later call named another, no update_predict in between)?
+    stored_ok = probe is not None and fh_for_fit is not None and not any(
+        (o[0] == "pred" and o[1] is not None) or (o[0] == "ups" and o[2] is not None) or o[0] == "up" for o in ops[fit_idx + 1:])
     if refit:
         # reference: a fresh forecaster fitted on everything remembered so far (y1 followed by y2)
         merged = {}
@@ -540,6 +589,12 @@ def _check_update_equiv(c, i, refit):
         b_outs, fb = _real_values(_twin(c, [["fit", series, fh_for_fit], ["pred", probe]]))
         if not _same(a_outs[-1], b_outs[-1]):
             return "fit;...;update(refit) forecasts %s, fresh fit on the union forecasts %s" % (_fmt(a_outs[-1]), _fmt(b_outs[-1]))
+        if stored_ok:
+            # ... and with the horizon the forecaster was GIVEN at fit (relative or absolute), asked for without repeating it
+            a2, _ = _real_values(_twin(c, ops + [["pred", None]]))
+            b2, _ = _real_values(_twin(c, [["fit", series, fh_for_fit], ["pred", None]]))
+            if not _same(a2[-1], b2[-1]):
+                return "fit(fh=%s);...;update(refit);predict() forecasts %s, fresh fit on the union forecasts %s" % (M.s_fh(fh_for_fit), _fmt(a2[-1]), _fmt(b2[-1]))
         return None
     # no refit: for the probe core the forecast must be the probe function of the last `window_length` labels at the NEW cutoff
     if c["core"].startswith("probe"):
@@ -552,6 +607,16 @@ def _check_update_equiv(c, i, refit):
         got = a_outs[-1]
         if isinstance(got, str) or list(got.index) != [cutoff + h for h in PROBE_FH[1]] or not np.allclose(got.to_numpy(), want):
             return "after update(update_params=False) forecast %s, expected %r from the new cutoff %r" % (_fmt(got), want, cutoff)
+        if stored_ok:
+            # the horizon given at fit, not repeated: relative steps count from the NEW cutoff, absolute time points stay
+            labels = [cutoff + h for h in fh_for_fit[1]] if fh_for_fit[0] == "r" else list(fh_for_fit[1])
+            if all(l > cutoff for l in labels):
+                a2, _ = _real_values(_twin(c, ops + [["pred", None]]))
+                got2 = a2[-1]
+                want2 = [2 * s + 100 * len(win) + (l - cutoff) for l in labels]
+                if isinstance(got2, str) or list(got2.index) != labels or not np.allclose(got2.to_numpy(), want2):
+                    return "fit(fh=%s);...;update(update_params=False);predict() forecast %s, expected %r at %r from the new cutoff %r" % (
+                        M.s_fh(fh_for_fit), _fmt(got2), want2, labels, cutoff)
     return None
 
 
@@ -664,7 +729,8 @@ def _history(rng, core, mode, long=False):
     if core == "opaque:pipeline_impute" and batches and not any(o[1] is None for b in batches for o in b):
         b = rng.choice(batches)
         b[rng.randrange(len(b))][1] = None            # at least one missing value arrives in a later batch
-    fit_fh = M.rand_fh(rng, "oos", None, 3) if (mode == "r" or opq or rng.random() < 0.7) else None
+    # concrete cores are also given ABSOLUTE horizons at fit (time points that stay put while the cutoff moves on)
+    fit_fh = M.rand_fh(rng, "oos", None if opq else y0[-1][0], 3 if opq else 6) if (mode == "r" or opq or rng.random() < 0.7) else None
     ops = [["fit", y0, fit_fh]]
     stored = fit_fh is not None
     cutoff = y0[-1][0]
@@ -727,6 +793,25 @@ def _history(rng, core, mode, long=False):
     return ops
 
 
+def _restated_history(rng, core, mode):
+    """fit, then updates whose batches re-state the last few known observations UNCHANGED next to new ones"""
+    opq = core.startswith("opaque")
+    total = rng.randrange(18, 26)
+    series = M.stretch(rng, rng.choice([0, 0, 5, -3]), total, 0.0, opq, 0.0)
+    n0 = rng.randrange(10, 14)
+    fit_fh = M.rand_fh(rng, "oos", None, 3)
+    ops = [["fit", [list(x) for x in series[:n0]], fit_fh]]
+    j = n0
+    for _ in range(rng.choice([1, 1, 2])):
+        k, m = rng.randrange(1, 4), rng.randrange(1, 4)
+        if j + m > total:
+            break
+        ops.append(["upd", [list(x) for x in series[j - k:j + m]], rng.random() < 0.35])
+        j += m
+    ops.append(["pred", None if mode == "r" or rng.random() < 0.5 else M.rand_fh(rng, "oos", None, 4)])
+    return ops
+
+
 def gen_cases(tier, rng):
     cases = []
     quick = tier == "quick"
@@ -748,6 +833,14 @@ def gen_cases(tier, rng):
         for j in range(per):
             cases.append({"prop": PROP, "core": "opaque:" + name, "mode": mode, "ops": _history(rng, "opaque:" + name, mode),
                           "shift": 0, "range": rng.random() < 0.5})
+    # batches that re-state known observations unchanged, for every forecaster
+    for name, (mode, _) in sorted(table.items()):
+        for j in range(2 if quick else 8):
+            cases.append({"prop": PROP, "core": "opaque:" + name, "mode": mode, "ops": _restated_history(rng, "opaque:" + name, mode),
+                          "shift": 0, "range": rng.random() < 0.5, "other": False})
+    for j in range(24 if quick else 200):
+        core = rng.choice(cores)
+        cases.append({"prop": PROP, "core": core, "mode": "o", "ops": _restated_history(rng, core, "o"), "shift": 0, "range": rng.random() < 0.5})
     for cc in cases:
         cc.setdefault("other", rng.random() < 0.3)      # a second object of the same kind is used in between
     # prediction intervals through predict / update_predict_single / update_predict (Model/PredInt.lean)
